@@ -620,7 +620,18 @@ func (e *Engine) resolveAssign(s *State, env *Env, a string, w *WriteSet) {
 		}
 		// also make sure the key exists for types not yet touched
 		if env != nil && env.pkg != nil {
-			if obj := env.pkg.Scope().Lookup(tn); obj != nil {
+			var obj types.Object
+			if k2 := strings.Index(tn, "."); k2 > 0 {
+				// imported type: pkgname.Type
+				for _, imp := range env.pkg.Imports() {
+					if imp.Name() == tn[:k2] {
+						obj = imp.Scope().Lookup(tn[k2+1:])
+					}
+				}
+			} else {
+				obj = env.pkg.Scope().Lookup(tn)
+			}
+			if obj != nil {
 				if st, ok := obj.Type().Underlying().(*types.Struct); ok {
 					for i := 0; i < st.NumFields(); i++ {
 						if st.Field(i).Name() == fn || fn == "*" {
